@@ -474,6 +474,20 @@ def hex4_rx(cs: CharSet) -> Optional[Rx]:
 class DecoderModel:
     """What the parser's decoder accepts, as tables (double-quote convention)."""
 
+    def _decodes(self, t: str) -> bool:
+        """Does the decoder (tables) accept the text t made of raw characters and simple escapes?"""
+        i = 0
+        while i < len(t):
+            if t[i] == "\\":
+                if i + 1 >= len(t) or t[i + 1] not in self.simple:
+                    return False
+                i += 2
+            else:
+                if self.raw_rejects.contains(ord(t[i])):
+                    return False
+                i += 1
+        return True
+
     def __init__(self) -> None:
         self.simple: Dict[str, str] = {}
         self.hex_escape: Optional[str] = None
@@ -490,12 +504,23 @@ class DecoderModel:
         raw = CharSet.any() - CharSet.of("\\" + quote) - self.raw_rejects
         alts: List[Rx] = [Chars(raw)]
         simple = CharSet()
-        for c in self.simple:
-            src = c
-            if c == '"':
-                src = quote  # after normalisation the escaped own quote is what reaches the decoder's '"' entry
-            if lexer_escapes.contains(ord(src)) or src == quote:
-                simple = simple | CharSet.of(src)
+        chain = getattr(self, "chains", {}).get(quote)
+        for a, b in lexer_escapes.iv:
+            for cp in range(a, min(b, a + 300) + 1):
+                e = chr(cp)
+                if e == self.hex_escape:
+                    continue
+                if chain is not None:
+                    # what reaches the decoder after the quote normalisation of this style
+                    t = "\\" + e
+                    for old_, new_ in chain:
+                        t = t.replace(old_, new_)
+                    ok = self._decodes(t)
+                else:
+                    src = '"' if e == quote else e
+                    ok = src in self.simple
+                if ok:
+                    simple = simple | CharSet.of(e)
         if not simple.empty():
             alts.append(Seq(lit("\\"), Chars(simple)))
         if self.hex_escape and lexer_escapes.contains(ord(self.hex_escape)):
